@@ -112,6 +112,16 @@ func (s *server) RoundTrip(req *http.Request) (*http.Response, error) {
 		code = 401
 		h.Set("WWW-Authenticate", "Negotiate")
 		body = "Unauthorised.\n"
+	case "401-negotiate-after-basic":
+		code = 401
+		h.Add("WWW-Authenticate", `Basic realm="sim"`)
+		h.Add("WWW-Authenticate", "Negotiate")
+	case "401-negotiate-in-list":
+		code = 401
+		h.Set("WWW-Authenticate", `Negotiate, Basic realm="sim"`)
+	case "401-negotiate-lowercase":
+		code = 401
+		h.Set("WWW-Authenticate", "negotiate")
 	case "401-reject-token":
 		code = 401
 		h.Set("WWW-Authenticate", "Negotiate oQcwBaADCgEC")
@@ -158,6 +168,17 @@ func canonical(host string, cname map[string]string) string {
 	return h
 }
 
+// preAuthValue: the Authorization header a caller hands to Do.
+func preAuthValue(kind string) string {
+	switch kind {
+	case "stale":
+		return "Negotiate YIIB-left-over-from-an-earlier-use-of-this-request"
+	case "basic":
+		return "Basic c2ltOnNpbQ=="
+	}
+	return ""
+}
+
 type detail struct {
 	Script []string `json:"script"`
 	Tail   string   `json:"tail"`
@@ -199,6 +220,9 @@ func run(tapeJSON json.RawMessage, res *core.Result) {
 	}
 	valid := map[string]bool{}
 	for _, a := range alphabet {
+		valid[a] = true
+	}
+	for _, a := range challengeForms {
 		valid[a] = true
 	}
 	if len(tp.Cycle) > 4 {
@@ -318,6 +342,9 @@ func run(tapeJSON json.RawMessage, res *core.Result) {
 					opErr = e
 					return
 				}
+				if v := preAuthValue(tp.PreAuth); v != "" {
+					rq.Header.Set("Authorization", v)
+				}
 				resp, opErr = sc.Do(rq)
 			}
 		})
@@ -385,12 +412,20 @@ func run(tapeJSON json.RawMessage, res *core.Result) {
 			res.Probes["reused-client-after-redirect-limit"]++
 		}
 	}
+	// what the caller left in the Authorization header is not a token of this call
+	ownAuth := func(e *seen) bool { return e.Auth != "" && e.Auth != preAuthValue(tp.PreAuth) }
+	if tp.PreAuth != "" {
+		res.Probes["request-arrives-with-authorization-header"]++
+	}
 	// (1) + (2): what follows a bare Negotiate challenge
 	challenged := false
 	for i, e := range srv.log {
-		if e.Resp == "401-negotiate" {
+		if IsChallenge(e.Resp) {
 			challenged = true
 			res.Probes["challenged"]++
+			if e.Resp != "401-negotiate" {
+				res.Probes["challenge-in-other-legal-form"]++
+			}
 			if tp.BodySize > 0 {
 				res.Probes["challenged-with-body"]++
 				if e.BodyLen < tp.BodySize && e.HadBody {
@@ -404,13 +439,27 @@ func run(tapeJSON json.RawMessage, res *core.Result) {
 				// the call ended here.  Handing the 401 back is fine; so is an error - unless the
 				// challenge answered a request without a token and the client then failed to produce
 				// one although KDC, network and name resolution are healthy
-				if !e.HasAuth && opErr != nil && panicMsg == "" && !srv.excess {
+				if !ownAuth(e) && opErr != nil && panicMsg == "" && !srv.excess {
 					viol("challenge-not-answered", "the call ended with an error instead of a retry carrying a token: "+opErr.Error())
+				}
+				if !ownAuth(e) && opErr == nil && panicMsg == "" && !srv.excess {
+					// "when a server answers 401 with a Negotiate challenge, the client retries with an
+					// Authorization header": this challenge answered a request that carried no token of
+					// this call, and the 401 was handed back without a retry
+					d.Why = "the 401 was returned without a retry carrying a token"
+					cause := "bare-negotiate"
+					switch {
+					case e.Auth != "":
+						cause = "request-arrived-with-" + tp.PreAuth + "-authorization-header"
+					case e.Resp != "401-negotiate":
+						cause = "challenge-form-" + strings.TrimPrefix(e.Resp, "401-negotiate-")
+					}
+					engine.Violate(res, "challenge-not-answered|401-returned-without-retry|"+cause, d)
 				}
 				continue
 			}
 			nx := srv.log[i+1]
-			if e.HasAuth {
+			if ownAuth(e) {
 				continue // the challenge answered an authenticated request: what follows is the client's choice
 			}
 			if !strings.HasPrefix(nx.Auth, "Negotiate ") {
@@ -457,6 +506,23 @@ func run(tapeJSON json.RawMessage, res *core.Result) {
 			viol(clause, why)
 		}
 	}
+	// (3b) a redirect is followed: an error instead is justified by the responses of this call only (a
+	// long chain of redirects), never by what earlier calls of a reused client were answered
+	if n := len(srv.log); n > 0 && strings.HasPrefix(srv.log[n-1].Resp, "302") && panicMsg == "" && !srv.excess && tp.API != "header" {
+		redirects := 0
+		for _, e := range srv.log {
+			if strings.HasPrefix(e.Resp, "302") {
+				redirects++
+			}
+		}
+		if len(tp.Warm) > 0 {
+			res.Probes["redirect-after-reuse"]++
+		}
+		if redirects < 5 && opErr != nil {
+			d.Why = fmt.Sprintf("the call ended after %d redirect(s) of this call with: %v", redirects, opErr)
+			engine.Violate(res, "redirect-not-followed|reused-client", d)
+		}
+	}
 	// (4) the value returned
 	if tp.API != "header" && panicMsg == "" {
 		switch {
@@ -472,7 +538,7 @@ func run(tapeJSON json.RawMessage, res *core.Result) {
 	if len(tp.Cycle) > 0 {
 		res.Probes["periodic-tail"]++
 	}
-	if tp.Tail == "401-negotiate" {
+	if IsChallenge(tp.Tail) {
 		res.Probes["ever-challenging-tail"]++
 	}
 	if strings.HasPrefix(tp.Tail, "302") {
@@ -527,14 +593,14 @@ func shapeOf(tp *Tape) string {
 		return "reused-client+" + shapeOf(&t)
 	}
 	switch {
-	case tp.Tail == "401-negotiate":
+	case IsChallenge(tp.Tail):
 		return "ever-challenging"
 	case strings.HasPrefix(tp.Tail, "302"):
 		return "ever-redirecting"
 	}
 	hasCh, hasRd := false, false
 	for _, s := range tp.Script {
-		hasCh = hasCh || s == "401-negotiate"
+		hasCh = hasCh || IsChallenge(s)
 		hasRd = hasRd || strings.HasPrefix(s, "302")
 	}
 	switch {
